@@ -71,15 +71,23 @@ pub fn c01_workloads(thorough: bool) -> Vec<(Workload, usize)> {
     w12.faults = vec![Fault::Drop, Fault::Delay(3), Fault::DropBurst(2)];
     let mut w13 = wl("W13-one-48000B", ro(), vec![m(A, 0, 0, 0, 48_000)]);
     w13.faults = vec![Fault::Drop, Fault::Delay(3), Fault::DropBurst(2)];
+    // a hole with exactly one receive window of data buffered behind it (the receiver advertises
+    // a_rwnd = 0 for a moment), and one more message long after everything was acknowledged: a
+    // zero-window SACK that is overtaken and arrives while the sender is idle must not close the
+    // window for good
+    let mut w14 = wl("W14-rwnd4096-zero-window-then-late-message", ro(), vec![m(A, 0, 0, 0, 200), m(A, 0, 0, 0, 1024), m(A, 0, 0, 0, 1024), m(A, 0, 0, 0, 1024), m(A, 0, 0, 0, 1024), m(A, 0, 0, 3000, 20)]);
+    w14.rwnd = Some(4096);
+    w14.faults = vec![Fault::Drop, Fault::Delay(3), Fault::DupLate(6), Fault::DupLate(2)];
     if thorough {
         vec![
+            (w14.clone(), 3),
             (w12, 2), (w13, 2),
             (w10, 3), (w11, 2),
             (w1.clone(), 3), (w2, 3), (w3, 3), (w4, 3), (w6, 3), (w5, 2), (w7, 2), (w8, 2), (w9, 2),
             (Workload { name: "W1-bound4".into(), ..w1 }, 4),
         ]
     } else {
-        vec![(w1, 2), (w2, 1), (w3, 1), (w4, 1), (w6, 1), (w5, 1), (w7, 1), (w8, 1), (w9, 1), (w10, 2), (w12, 1), (w13, 1)]
+        vec![(w1, 2), (w2, 1), (w3, 1), (w4, 1), (w6, 1), (w5, 1), (w7, 1), (w8, 1), (w9, 1), (w10, 2), (w12, 1), (w13, 1), (w14, 2)]
     }
 }
 
